@@ -518,4 +518,222 @@ example : brightness (250 : ℝ) 250 (1 - 0.9) 0.9 [⟨0.5, 250, 0.1, 0.9, 0.2, 
   · rfl
   · simp only [bottomOf, throughLayer, throughInterface]; norm_num
 
+/-! ### maximum principle for non-scattering stacks (C03 / C01 in closed form) -/
+
+/-- the algebra of one interface crossing: with `τ↑ = τ↓ = τ`, `r_b = 1 − τ`, `r_a = 1 − τ`:
+    `1 − Γ'' = τ (1 − Γ') / D` with `D = 1 − r_b Γ'` -/
+theorem one_sub_gamma_interface (τ g : ℝ) (hD0 : 1 - (1 - τ) * g ≠ 0) :
+    1 - ((1 - τ) + τ * τ * g / (1 - (1 - τ) * g)) = τ * (1 - g) / (1 - (1 - τ) * g) := by
+  have h1 := mul_inv_cancel₀ hD0
+  simp only [div_eq_mul_inv]
+  linear_combination (-τ) * h1
+
+/-- one layer: `m (1 − Γ) ≤ S ≤ M (1 − Γ)` is preserved by `throughLayer` -/
+theorem throughLayer_between (ly : SLayer ℝ) (g s m M : ℝ) (ht0 : 0 ≤ ly.t) (ht1 : ly.t ≤ 1) (hTm : m ≤ ly.temp) (hTM : ly.temp ≤ M)
+    (hg0 : 0 ≤ g) (hl : m * (1 - g) ≤ s) (hu : s ≤ M * (1 - g)) :
+    m * (1 - (throughLayer ly g s).1) ≤ (throughLayer ly g s).2 ∧ (throughLayer ly g s).2 ≤ M * (1 - (throughLayer ly g s).1) := by
+  simp only [throughLayer]
+  have h1 : 0 ≤ (1 - ly.t) * (1 + ly.t * g) := by
+    have : 0 ≤ 1 - ly.t := by linarith
+    positivity
+  constructor
+  · have e : ly.temp * (1 - ly.t) * (1 + ly.t * g) + ly.t * s - m * (1 - ly.t * ly.t * g)
+        = (ly.temp - m) * ((1 - ly.t) * (1 + ly.t * g)) + ly.t * (s - m * (1 - g)) := by ring
+    have : 0 ≤ (ly.temp - m) * ((1 - ly.t) * (1 + ly.t * g)) + ly.t * (s - m * (1 - g)) := by
+      have a : 0 ≤ ly.temp - m := by linarith
+      have b : 0 ≤ s - m * (1 - g) := by linarith
+      positivity
+    linarith
+  · have e : M * (1 - ly.t * ly.t * g) - (ly.temp * (1 - ly.t) * (1 + ly.t * g) + ly.t * s)
+        = (M - ly.temp) * ((1 - ly.t) * (1 + ly.t * g)) + ly.t * (M * (1 - g) - s) := by ring
+    have : 0 ≤ (M - ly.temp) * ((1 - ly.t) * (1 + ly.t * g)) + ly.t * (M * (1 - g) - s) := by
+      have a : 0 ≤ M - ly.temp := by linarith
+      have b : 0 ≤ M * (1 - g) - s := by linarith
+      positivity
+    linarith
+
+/-- **invariant of the maximum principle**: at every level, `m (1 − Γ) ≤ S ≤ M (1 − Γ)` when every source below is in `[m, M]` -/
+theorem bottomOf_between (tsub m M : ℝ) (hm0 : 0 ≤ m) (hm : m ≤ tsub) (hM : tsub ≤ M) (ls : List (SLayer ℝ)) (hne : ls ≠ [])
+    (hg : ∀ ly ∈ ls, Good ly) (hT : ∀ ly ∈ ls, m ≤ ly.temp ∧ ly.temp ≤ M) (hl : ∀ ly ∈ ls, LosslessIf ly) (hr : Reciprocal ls) :
+    m * (1 - (bottomOf tsub ls).1) ≤ (bottomOf tsub ls).2 ∧ (bottomOf tsub ls).2 ≤ M * (1 - (bottomOf tsub ls).1) := by
+  induction ls with
+  | nil => exact absurd rfl hne
+  | cons up rest ih =>
+    cases rest with
+    | nil =>
+      have g := hg up (by simp)
+      have := (hl up (by simp)).bot
+      simp only [bottomOf]
+      have e : 1 - up.rBot = up.tauDn := by linarith
+      rw [e]
+      constructor
+      · rw [mul_comm]; exact mul_le_mul_of_nonneg_left hm g.d0
+      · rw [mul_comm M]; exact mul_le_mul_of_nonneg_left hM g.d0
+    | cons lower rest =>
+      obtain ⟨hrec1, hrec2⟩ := hr
+      obtain ⟨ihl, ihu⟩ := ih (by simp) (fun ly h => hg ly (by simp [h])) (fun ly h => hT ly (by simp [h]))
+        (fun ly h => hl ly (by simp [h])) hrec2
+      obtain ⟨hG0, hG1, _⟩ := bottomOf_nonneg tsub (le_trans hm0 hm) (lower :: rest) (by simp) (fun ly h => hg ly (by simp [h]))
+      have gl := hg lower (by simp)
+      have gu := hg up (by simp)
+      obtain ⟨hTm, hTM⟩ := hT lower (by simp)
+      have ltop := (hl lower (by simp)).top
+      have ubot := (hl up (by simp)).bot
+      set g := (bottomOf tsub (lower :: rest)).1 with hgdef
+      set s := (bottomOf tsub (lower :: rest)).2 with hsdef
+      obtain ⟨hl', hu'⟩ := throughLayer_between lower g s m M gl.t0 gl.t1 hTm hTM hG0 ihl ihu
+      simp only [bottomOf, throughInterface]
+      rw [← hgdef, ← hsdef]
+      set g' := (throughLayer lower g s).1 with hg'
+      set s' := (throughLayer lower g s).2 with hs'
+      have hg'0 : 0 ≤ g' := by
+        simp only [hg', throughLayer]; have := gl.t0; positivity
+      have hg'1 : g' ≤ 1 := by
+        simp only [hg', throughLayer]; nlinarith [mul_nonneg gl.t0 gl.t0, gl.t0, gl.t1]
+      set τ := lower.tauUp with hτ
+      have e1 : lower.rTop = 1 - τ := by linarith
+      have e2 : up.rBot = 1 - τ := by rw [hrec1]; linarith
+      have e3 : up.tauDn = τ := hrec1.symm
+      have hτ0 : 0 ≤ τ := gl.u0
+      have hD : 0 < 1 - (1 - τ) * g' := by
+        have : (1 - τ) < 1 ∨ True := Or.inr trivial
+        have r0 := gl.r0; have r1 := gl.r1
+        rw [e1] at r0 r1
+        nlinarith
+      rw [e1, e2, e3]
+      have key := one_sub_gamma_interface τ g' (ne_of_gt hD)
+      have hq : 0 ≤ τ / (1 - (1 - τ) * g') := div_nonneg hτ0 hD.le
+      constructor
+      · rw [key]
+        have : m * (τ * (1 - g') / (1 - (1 - τ) * g')) = (τ / (1 - (1 - τ) * g')) * (m * (1 - g')) := by ring
+        rw [this]
+        have : τ * s' / (1 - (1 - τ) * g') = (τ / (1 - (1 - τ) * g')) * s' := by ring
+        rw [this]
+        exact mul_le_mul_of_nonneg_left hl' hq
+      · rw [key]
+        have : M * (τ * (1 - g') / (1 - (1 - τ) * g')) = (τ / (1 - (1 - τ) * g')) * (M * (1 - g')) := by ring
+        rw [this]
+        have : τ * s' / (1 - (1 - τ) * g') = (τ / (1 - (1 - τ) * g')) * s' := by ring
+        rw [this]
+        exact mul_le_mul_of_nonneg_left hu' hq
+
+/-- **brightness_between** (maximum principle, C03, for non-scattering stacks): with loss-free reciprocal interfaces and physical
+    coefficients, the closed-form brightness temperature lies between the coldest and the warmest of the sources (layers, substrate, sky) -/
+theorem brightness_between (tsub tsky rAir tauAir m M : ℝ) (hm0 : 0 ≤ m) (top : SLayer ℝ) (rest : List (SLayer ℝ))
+    (hsub : m ≤ tsub ∧ tsub ≤ M) (hsky : m ≤ tsky ∧ tsky ≤ M)
+    (hg : ∀ ly ∈ top :: rest, Good ly) (hT : ∀ ly ∈ top :: rest, m ≤ ly.temp ∧ ly.temp ≤ M) (hl : ∀ ly ∈ top :: rest, LosslessIf ly)
+    (hr : Reciprocal (top :: rest)) (hair : rAir + tauAir = 1) (hrecip : tauAir = top.tauUp) :
+    m ≤ brightness tsub tsky rAir tauAir (top :: rest) ∧ brightness tsub tsky rAir tauAir (top :: rest) ≤ M := by
+  obtain ⟨ihl, ihu⟩ := bottomOf_between tsub m M hm0 hsub.1 hsub.2 (top :: rest) (by simp) hg hT hl hr
+  obtain ⟨hG0, hG1, _⟩ := bottomOf_nonneg tsub (le_trans hm0 hsub.1) (top :: rest) (by simp) hg
+  have gt := hg top (by simp)
+  obtain ⟨hTm, hTM⟩ := hT top (by simp)
+  have ltop := (hl top (by simp)).top
+  set g := (bottomOf tsub (top :: rest)).1 with hgdef
+  set s := (bottomOf tsub (top :: rest)).2 with hsdef
+  obtain ⟨hl', hu'⟩ := throughLayer_between top g s m M gt.t0 gt.t1 hTm hTM hG0 ihl ihu
+  simp only [brightness]
+  rw [← hgdef, ← hsdef]
+  set g' := (throughLayer top g s).1 with hg'
+  set s' := (throughLayer top g s).2 with hs'
+  have hg'0 : 0 ≤ g' := by
+    simp only [hg', throughLayer]; have := gt.t0; positivity
+  have hg'1 : g' ≤ 1 := by
+    simp only [hg', throughLayer]; nlinarith [mul_nonneg gt.t0 gt.t0, gt.t0, gt.t1]
+  set τ := top.tauUp with hτ
+  have e1 : top.rTop = 1 - τ := by linarith
+  have e2 : rAir = 1 - τ := by linarith
+  have hτ0 : 0 ≤ τ := gt.u0
+  have hD : 0 < 1 - (1 - τ) * g' := by
+    have r0 := gt.r0; have r1 := gt.r1
+    rw [e1] at r0 r1
+    nlinarith
+  rw [e1, e2, hrecip]
+  have key := one_sub_gamma_interface τ g' (ne_of_gt hD)
+  have hq : 0 ≤ τ / (1 - (1 - τ) * g') := div_nonneg hτ0 hD.le
+  -- Tb = q s' + Γ'' tsky with 1 − Γ'' = q (1 − g')
+  set G := (1 - τ) + τ * τ * g' / (1 - (1 - τ) * g') with hGdef
+  have hG : 1 - G = (τ / (1 - (1 - τ) * g')) * (1 - g') := by rw [hGdef, key]; ring
+  have hGnn : 0 ≤ G := by
+    rw [hGdef]
+    have : 0 ≤ τ * τ * g' / (1 - (1 - τ) * g') := by positivity
+    have r0 := gt.r0; rw [e1] at r0
+    linarith
+  have eTb : τ * s' / (1 - (1 - τ) * g') + G * tsky = (τ / (1 - (1 - τ) * g')) * s' + G * tsky := by ring
+  rw [eTb]
+  constructor
+  · have a := mul_le_mul_of_nonneg_left hl' hq
+    have b := mul_le_mul_of_nonneg_left hsky.1 hGnn
+    have : m = (τ / (1 - (1 - τ) * g')) * (m * (1 - g')) + G * m := by
+      have : (τ / (1 - (1 - τ) * g')) * (m * (1 - g')) = m * (1 - G) := by rw [hG]; ring
+      rw [this]; ring
+    linarith
+  · have a := mul_le_mul_of_nonneg_left hu' hq
+    have b := mul_le_mul_of_nonneg_left hsky.2 hGnn
+    have : M = (τ / (1 - (1 - τ) * g')) * (M * (1 - g')) + G * M := by
+      have : (τ / (1 - (1 - τ) * g')) * (M * (1 - g')) = M * (1 - G) := by rw [hG]; ring
+      rw [this]; ring
+    linarith
+
+
+
+theorem den_pos_of_good (ly : SLayer ℝ) (g s : ℝ) (hgd : Good ly) (hg0 : 0 ≤ g) (hg1 : g ≤ 1) :
+    0 < 1 - ly.rTop * (throughLayer ly g s).1 := by
+  simp only [throughLayer]
+  have h1 : ly.t * ly.t * g ≤ 1 := by nlinarith [mul_nonneg hgd.t0 hgd.t0, hgd.t0, hgd.t1]
+  have h0 : 0 ≤ ly.t * ly.t * g := by have := hgd.t0; positivity
+  nlinarith [hgd.r0, hgd.r1]
+
+/-- with physical coefficients every geometric series of the recursion converges -/
+theorem denOk_of_good (tsub : ℝ) (h0 : 0 ≤ tsub) (ls : List (SLayer ℝ)) (hg : ∀ ly ∈ ls, Good ly) : DenOk tsub ls := by
+  induction ls with
+  | nil => trivial
+  | cons up rest ih =>
+    cases rest with
+    | nil => trivial
+    | cons lower rest =>
+      refine ⟨ih (fun ly h => hg ly (by simp [h])), ?_⟩
+      obtain ⟨hG0, hG1, _⟩ := bottomOf_nonneg tsub h0 (lower :: rest) (by simp) (fun ly h => hg ly (by simp [h]))
+      exact ne_of_gt (den_pos_of_good lower _ _ (hg lower (by simp)) hG0 hG1)
+
+/-- the premises of `brightness_between` are satisfiable: a warm layer over a colder one, substrate at 270 K, sky at 20 K -/
+example : (20 : ℝ) ≤ brightness 270 20 (1 - 0.9) 0.9 [⟨0.5, 260, 0.1, 0.9, 0.2, 0.8⟩, ⟨0.7, 240, 0.2, 0.8, 0.6, 0.4⟩] ∧
+    brightness (270 : ℝ) 20 (1 - 0.9) 0.9 [⟨0.5, 260, 0.1, 0.9, 0.2, 0.8⟩, ⟨0.7, 240, 0.2, 0.8, 0.6, 0.4⟩] ≤ 270 := by
+  refine brightness_between 270 20 (1 - 0.9) 0.9 20 270 (by norm_num) _ _ ⟨by norm_num, by norm_num⟩ ⟨by norm_num, by norm_num⟩ ?_ ?_ ?_ ?_ ?_ ?_
+  · intro ly h; simp at h; rcases h with h | h <;> subst h <;> constructor <;> norm_num
+  · intro ly h; simp at h; rcases h with h | h <;> subst h <;> constructor <;> norm_num
+  · intro ly h; simp at h; rcases h with h | h <;> subst h <;> constructor <;> norm_num
+  · simp [Reciprocal]
+  · norm_num
+  · rfl
+
+section chainBetween
+open Smrt.Dort
+variable {S : DStack ℝ} {N : Nat} {κ rt rb tu td : Nat → Nat → ℝ}
+
+/-- **stack_max_principle**: for a non-scattering stack with loss-free reciprocal specular interfaces and physical coefficients, every
+    solution of the system `dort_modem_banded` assembles gives, at every stream and polarisation, an emerging intensity between the
+    coldest and the warmest of the sources (layers, substrate, incident sky) - the geometric series converge by themselves -/
+theorem stack_max_principle (h : TrivialStack S N κ rt rb tu td) (x : Nat → Nat → Nat → ℝ) (hs : Solves S x)
+    (i v : Nat) (hi : i < N) (n : Nat) (hL : n + 1 = S.L)
+    (tdAir rAir : Nat → ℝ) (hta : S.tbotAir = .diag ⟨N, tdAir⟩) (hra : S.rbotAir = .diag ⟨N, rAir⟩) (hnair : S.nAir * S.npol = N)
+    (m M : ℝ) (hm0 : 0 ≤ m) (hsub : m ≤ S.tsub ∧ S.tsub ≤ M) (hsky : m ≤ S.idown.f i v ∧ S.idown.f i v ≤ M)
+    (hg : ∀ ly ∈ chainN S κ rt rb tu td i 0 (n + 1), Good ly)
+    (hT : ∀ ly ∈ chainN S κ rt rb tu td i 0 (n + 1), m ≤ ly.temp ∧ ly.temp ≤ M)
+    (hl : ∀ ly ∈ chainN S κ rt rb tu td i 0 (n + 1), LosslessIf ly)
+    (hr : Reciprocal (chainN S κ rt rb tu td i 0 (n + 1)))
+    (hair : rAir i + tdAir i = 1) (hrecip : tdAir i = tu 0 i) :
+    m ≤ emergingB S x i v ∧ emergingB S x i v ≤ M := by
+  have h0 : 0 ≤ S.tsub := le_trans hm0 hsub.1
+  have hd := denOk_of_good S.tsub h0 _ hg
+  obtain ⟨hG0, hG1, _⟩ := bottomOf_nonneg S.tsub h0 (chainN S κ rt rb tu td i 0 (n + 1)) (by simp [chainN]) hg
+  have hden := ne_of_gt (den_pos_of_good (mk S κ rt rb tu td i 0) _ (bottomOf S.tsub (chainN S κ rt rb tu td i 0 (n + 1))).2
+    (hg _ (by simp [chainN])) hG0 hG1)
+  have e := stack_is_textbook h x hs i v hi n hL tdAir rAir hta hra hnair hd (by simpa [mk] using hden)
+  rw [e]
+  simp only [chainN] at hg hT hl hr ⊢
+  exact brightness_between S.tsub (S.idown.f i v) (rAir i) (tdAir i) m M hm0 _ _ hsub hsky hg hT hl hr hair (by simpa [mk] using hrecip)
+
+end chainBetween
+
 end Smrt.Props.C02
